@@ -233,6 +233,103 @@ def evaluate(case, ctx):
         res.cleanup()
 
 
+@st.composite
+def twin_scenarios(draw):
+    """'tight' annotations: tandem splice sites 1..delta apart (NAGNAG-like twins); reads follow one twin exactly."""
+    src = S.DrawSrc(draw)
+    sc = S.gen_annotation(src, n_chroms=(1, 2), genes_per_chrom=(1, 3), iso_per_gene=(1, 2), sep=40, max_exons=6,
+                          overlap_p=0.1)
+    dt = src.choice(S.DATA_TYPES)
+    ms = src.choice([None, "precise", "default", "loose"])
+    strategy = ms or S.DATA_DEFAULT_STRATEGY[dt]
+    delta = S.DELTAS[strategy]
+    truth = {}
+    k = 0
+    n_t = sum(len(g["transcripts"]) for g in sc["genes"])
+    for g in sc["genes"]:
+        twins = []
+        for t in g["transcripts"]:
+            ex = t["exons"]
+            if len(ex) < 2 or not src.bool(0.7):
+                continue
+            new = [list(e) for e in ex]
+            i = src.int(0, len(ex) - 2)
+            d = src.int(1, delta) * src.choice([-1, 1])
+            if src.bool():
+                new[i][1] += d
+            else:
+                new[i + 1][0] += d
+            if src.bool(0.3):
+                d2 = src.int(1, delta) * src.choice([-1, 1])
+                new[i + 1][0] += d2 if new[i + 1][0] == ex[i + 1][0] else 0
+            if any(e[1] - e[0] < 30 for e in new) or any(new[j + 1][0] - new[j][1] < 60 for j in range(len(new) - 1)):
+                continue
+            n_t += 1
+            twins.append({"id": "T%dw" % n_t, "exons": new})
+        g["transcripts"] += twins
+    lens = {c[0]: c[1] for c in sc["chroms"]}
+    for g, t in S.transcripts_of(sc):
+        for _ in range(src.int(1, 3)):
+            k += 1
+            name = "r%d" % k
+            r = S.exact_read(name, g["chr"], g["strand"], t["exons"], polya=src.choice([0, 25]))
+            if R.cigar_blocks(r["p"], r["cg"])[-1][1] + 45 >= lens[g["chr"]]:
+                continue
+            sc["reads"].append(r)
+            truth[name] = {"cls": "X", "src": t["id"], "blocks": [list(e) for e in t["exons"]]}
+    sc["truth"] = truth
+    sc["opts"] = ["--data_type", dt, "--no_gzip", "--threads", "1", "--no_model_construction"]
+    if ms:
+        sc["opts"] += ["--matching_strategy", ms]
+    sc["delta"], sc["strategy"] = delta, strategy
+    return sc
+
+
+def evaluate_twins(case, ctx):
+    """exact full-length reads in annotations with twin splice sites: consistent, and the followed isoform is reported"""
+    sc = case
+    res = pipeline.run_case(sc, ctx)
+    try:
+        tsvp = res.path("read_assignments.tsv")
+        if res.code != 0 or not tsvp:
+            ctx.note("crash:" + res.crash_signature())
+            return
+        by_read = defaultdict(list)
+        for r in parse.read_assignments(tsvp):
+            by_read[r["read_id"]].append(r)
+        iso = {t["id"]: t["exons"] for g, t in S.transcripts_of(sc)}
+        chash = case_hash(case)
+        n_twin_reads = 0
+        for name, tr in sc["truth"].items():
+            rws = by_read.get(name)
+            T = tr["src"]
+            twin = T.endswith("w") or (T + "w") in iso or any(x.endswith("w") for x in iso)
+            if not rws:
+                ctx.violation("C01:twins:exact-read-not-reported", {"read": name, "T": T}, case)
+                continue
+            typ = rws[0]["type"]
+            reported = [r["isoform"] for r in rws]
+            if T.endswith("w") or any(abs(a[0] - b[0]) + abs(a[1] - b[1]) <= 2 * sc["delta"] and (a != b)
+                                      for t2, ex2 in iso.items() if t2 != T
+                                      for a, b in zip(compat.introns(iso[T]), compat.introns(ex2))
+                                      if len(ex2) == len(iso[T])):
+                n_twin_reads += 1
+                ctx.mark_nontrivial(chash + name)
+            if typ not in CONSISTENT:
+                ctx.violation("C01:twins:exact-read-not-consistent:" + typ,
+                              {"read": name, "T": T, "T_exons": iso[T], "type": typ, "reported": reported,
+                               "strategy": sc["strategy"]}, case)
+            elif T not in reported:
+                ctx.violation("C01:twins:exact-full-length-read-misses-its-isoform:" + sc["strategy"],
+                              {"read": name, "T": T, "T_exons": iso[T], "type": typ, "reported": reported,
+                               "reported_exons": {t: iso[t] for t in reported if t in iso}, "delta": sc["delta"]}, case)
+        ctx.cls("twins:reads_with_twin>0" if n_twin_reads else "twins:none")
+        ctx.sample(pipeline.summarize(sc, {"strategy": sc["strategy"], "twin_reads": n_twin_reads}), limit=1)
+    finally:
+        res.cleanup()
+
+
 def stages(tier):
     q = tier == "quick"
-    return [Stage("assign", "hyp", evaluate, n=384 if q else 8000, strategy=scenarios)]
+    return [Stage("assign", "hyp", evaluate, n=384 if q else 8000, strategy=scenarios),
+            Stage("twins", "hyp", evaluate_twins, n=192 if q else 3000, strategy=twin_scenarios)]
